@@ -10,6 +10,10 @@
       new process always) loads and renders the current source.
 (iii) 2..8 forked processes released together construct the same Template against a missing / empty / stale module
       directory; every process renders correctly and the final file is the complete new module.
+(i-pyc, ii pyc-* states) the same with the interpreter writing __pycache__: a module rewritten inside the wall-clock
+      second of the one it replaces, with the same size, must not be shadowed by the old bytecode - after a
+      fault-free rewrite, after a retry, and in a fresh process after a crash at every call (the removal of the
+      bytecode is a counted call).
 
 All mtimes are explicit whole seconds set with os.utime (simulated clock); `mako.codegen.time` is patched so that
 the `_modified_time` line of a generated module is a stamp chosen by the harness (this makes complete module
@@ -17,9 +21,11 @@ images byte-comparable and makes "this construction rewrote the file" observable
 """
 import base64
 import hashlib
+import importlib.util
 import itertools
 import json
 import os
+import py_compile
 import re
 import shutil
 import signal
@@ -37,23 +43,39 @@ from vf.gen import faultfs
 PID = "C15"
 LEVEL = "fault_enumeration"
 RULE = (
-    "(ii, exhaustive in both tiers) case = (template kind, uri depth, previous-module state in {nodir, absent, older, "
-    "magic}, writer absent|recording, k, mode, prefix fraction): k ranges over EVERY file-system call index of the "
-    "fault-free run of that state (faultfs log; 10-17 calls without a writer), mode over fail_before, fail_after, "
-    "die_before, die_after and, for write-like calls, fail_mid/die_mid with prefix 1 byte | half | all-but-one; "
-    "non-trivial = the hit call lies between the creation of the temp file and the move inclusive (first "
-    "mkstemp/open-for-write .. last rename/move/close); each case is enumerated once (distinct by construction). "
+    "(ii, exhaustive in both tiers) case = (template kind, uri depth, previous-module state, writer absent|recording, "
+    "k, mode, prefix fraction): states nodir | absent | older | magic with bytecode writing off, and pyc-older | "
+    "pyc-orphan with bytecode writing on (valid __pycache__ entry of the previous module, compiled when that module "
+    "had the mtime of the current wall-clock second; the module then aged below the source mtime, or deleted; the new "
+    "module has the same size, so a rewrite inside that second yields a file for which the old bytecode is still "
+    "valid); k ranges over EVERY file-system call index of the fault-free run of that state (faultfs log; 10-19 calls "
+    "without a writer, the two os.remove of the bytecode included), mode over fail_before, fail_after, die_before, "
+    "die_after and, for write-like calls, fail_mid/die_mid with prefix 1 byte | half | all-but-one (pyc states in "
+    "quick: half only); non-trivial = the hit call lies between the first bytecode removal / creation of the temp file "
+    "and the move / last bytecode removal inclusive, and for pyc states additionally: if the complete new module is at "
+    "the path it was written inside the second of the old bytecode (cases that miss the second after 5 tries are "
+    "counted as rejected); each case is enumerated once (distinct by construction). "
     "(i) case = history of <=12 ops drawn by hypothesis over 4 template kinds, uri depth 0..2, module dir "
     "pre-existing or not; non-trivial = the history has >=2 constructions and a construction that follows an "
     "equal/older-mtime source modification or a magic-number replacement; distinct by history fingerprint. "
-    "(iii) case = (n in 2..8, state, template kind incl. a 300 kB one, stagger, repetition); every race is counted "
-    "non-trivial (>=2 processes, rewrite due) and distinct by (n, state, kind, stagger, depth, repetition index)."
+    "(i-pyc) the same histories and oracle with bytecode writing on during every construction, drawn with a bias to "
+    "'rewrite, equal-length content change, rewrite'; each history is started with >=0.4 s left in the wall-clock "
+    "second; non-trivial = the history contains a rewrite whose new module file has the whole-second mtime and the "
+    "size of the __pycache__ entry (as modelled by the harness) but other content. "
+    "(iii) case = (n in 2..8, state, template kind incl. a 300 kB one, stagger, depth, repetition); every race is "
+    "counted non-trivial (>=2 processes, rewrite due) and distinct by (n, state, kind, stagger, depth, repetition index)."
 )
 ASSUMPTIONS = [
     "mtimes are whole seconds (os.stat()[ST_MTIME] truncates; sub-second ordering is outside the statement as read "
     "by the design: 'module mtime < source mtime (whole seconds)')",
-    "PYTHONDONTWRITEBYTECODE=1 as in the sandbox: the interpreter's __pycache__ is not part of the explored state "
-    "(thorough runs the history tier once with bytecode writing enabled and reports it under notes only)",
+    "both interpreter configurations are explored: bytecode writing off (parts i, ii, iii; forced with "
+    "sys.dont_write_bytecode=True around every Template()) and on (parts i-pyc and the pyc-* states of ii; switched on "
+    "only around Template() so that nothing is written next to /repo).  Whoever replaces a module file by another "
+    "generator's (the 'magic' op of the harness) leaves no bytecode for it behind; deleting a module file leaves its "
+    "__pycache__ entry in place.  Races (iii) run with bytecode writing off only",
+    "the bytecode-enabled parts need two module writes inside one wall-clock second; the harness waits for the start "
+    "of a second when less than ~0.4 s remain and records whether the second was hit (labels pyc:*); no oracle reads "
+    "the clock",
     "a stale-but-not-older module may legitimately render OLD content; only 'generated from the current source' and "
     "'just rewritten' modules are required to render the current source",
     "single-fault model: exactly one file-system call is hit per case; os.path.exists 'fails' by returning False; a "
@@ -66,6 +88,7 @@ T0 = 1_000_000_000  # simulated clock origin (whole seconds)
 XVAL = "X"
 KINDS = ("plain", "uni", "def", "ctl")
 STATES = ("nodir", "absent", "older", "magic")
+PYC_STATES = ("pyc-older", "pyc-orphan")  # bytecode-enabled crash states, see Scene.reset
 BIG_LINES = 9000
 CHILD_TIMEOUT_S = 300
 
@@ -188,10 +211,12 @@ def short(b, n=60):
 
 
 # ---- one construction (runs in the current process; children call it too) -------------------------------------
-def construct(src, moddir, uri, stamp, writer=False, fs=None, render=True):
+def construct(src, moddir, uri, stamp, writer=False, fs=None, render=True, bytecode=False):
     """Template(filename=src, module_directory=moddir, uri=uri) with codegen time patched to `stamp`.
 
     fs: an entered FaultFS; it is armed only for the duration of the Template() call.
+    bytecode: value of "the interpreter writes __pycache__" for the duration of the Template() call only (everything
+    mako needs is imported before, so nothing is written next to /repo or the standard library).
     """
     from mako.template import Template
 
@@ -221,6 +246,8 @@ def construct(src, moddir, uri, stamp, writer=False, fs=None, render=True):
     kw = {"module_writer": recording_writer} if writer else {}
     with mock.patch("mako.codegen.time", _Clock(stamp)):
         t = None
+        flag = sys.dont_write_bytecode
+        sys.dont_write_bytecode = not bytecode
         if fs is not None:
             fs.arm()
         try:
@@ -231,6 +258,7 @@ def construct(src, moddir, uri, stamp, writer=False, fs=None, render=True):
         finally:
             if fs is not None:
                 fs.disarm()
+            sys.dont_write_bytecode = flag
     if t is not None:
         try:
             res["last_modified"] = t.last_modified
@@ -308,8 +336,8 @@ def run_child(fn):
     return collect_child(pid, r)
 
 
-def construct_in_child(src, moddir, uri, stamp, writer=False):
-    code, out = run_child(lambda emit: emit({"res": construct(src, moddir, uri, stamp, writer)}))
+def construct_in_child(src, moddir, uri, stamp, writer=False, bytecode=False):
+    code, out = run_child(lambda emit: emit({"res": construct(src, moddir, uri, stamp, writer, bytecode=bytecode)}))
     if code != 0 or not out:
         raise HarnessError("fault-free child exited %r with %r" % (code, out))
     return out[-1]["res"]
@@ -328,11 +356,13 @@ class Clock:
 mako.codegen.time = Clock()
 res = {"outcome": "ok", "exc": None, "render": None, "render_exc": None, "writer_calls": [], "mako": mako.__file__}
 t = None
+sys.dont_write_bytecode = not a["bytecode"]   # only now: importing mako above must not write next to the repo
 try:
     t = Template(filename=a["src"], module_directory=a["moddir"], uri=a["uri"])
 except Exception as e:
     res["outcome"] = "raised"
     res["exc"] = "%s: %s" % (type(e).__name__, str(e)[:300])
+sys.dont_write_bytecode = True
 if t is not None:
     try:
         res["render"] = t.render_unicode(x=a["x"])
@@ -342,11 +372,13 @@ print(json.dumps({"res": res}))
 """
 
 
-def construct_in_new_interpreter(src, moddir, uri, stamp):
+def construct_in_new_interpreter(src, moddir, uri, stamp, bytecode=False):
     """A really fresh process: new interpreter, nothing imported yet, no harness code besides this script."""
-    arg = json.dumps({"src": src, "moddir": moddir, "uri": uri, "stamp": stamp, "repo": core.REPO, "x": XVAL})
+    arg = json.dumps({"src": src, "moddir": moddir, "uri": uri, "stamp": stamp, "repo": core.REPO, "x": XVAL,
+                      "bytecode": bool(bytecode)})
     env = dict(os.environ)
     env["PYTHONPATH"] = core.REPO + os.pathsep + core.VERIF
+    env["PYTHONDONTWRITEBYTECODE"] = "1"  # the script switches bytecode writing on itself, after its imports
     p = subprocess.run([sys.executable, "-c", FRESH_CODE, arg], env=env, cwd=core.VERIF,
                        stdout=subprocess.PIPE, stderr=subprocess.PIPE)
     lines = [l for l in p.stdout.decode("utf-8", "replace").splitlines() if l.startswith("{")]
@@ -371,16 +403,49 @@ def renders(res, kind, ver):
     return res["outcome"] == "ok" and res["render_exc"] is None and res["render"] == expected_output(kind, ver)
 
 
+def pyc_path(mpath):
+    return importlib.util.cache_from_source(mpath)
+
+
+def rm_pyc(mpath):
+    try:
+        os.unlink(pyc_path(mpath))
+    except OSError:
+        pass
+
+
+def wait_for_room_in_second(limit):
+    """Sleep to the start of the next wall-clock second when the current one is more than `limit` over.
+
+    Used only to make 'two module writes inside one whole second' likely; no oracle looks at the clock."""
+    frac = time.time() % 1.0
+    if frac > limit:
+        time.sleep(1.0 - frac + 0.002)
+
+
+def stale_version(res, kind, ver):
+    """The version < ver whose expected output was rendered, or None."""
+    if res["outcome"] != "ok" or res["render_exc"] is not None:
+        return None
+    for v in range(ver - 1, -1, -1):
+        if res["render"] == expected_output(kind, v):
+            return v
+    return None
+
+
 # =================================================================================================================
 # (i) histories against the staleness model
 # =================================================================================================================
-def history_strategy():
+def history_strategy(pyc=False):
+    """pyc=True: histories for the bytecode-enabled configuration.  They are biased towards the hazardous shape
+    'rewrite, content change of equal length, rewrite' (source made newer, module deleted, or module left older by
+    the restamp -2), so that two module writes of equal size fall into one wall-clock second."""
     from hypothesis import strategies as st
 
-    rel = st.sampled_from(["newer", "equal", "older"])
+    rel = st.sampled_from(["newer", "equal", "older"] if not pyc else ["newer", "newer", "newer", "equal", "older"])
     delta = st.integers(1, 3)
-    src = st.tuples(st.just("src"), rel, delta, st.sampled_from([False, False, False, True]))
-    new = st.tuples(st.just("new"), st.booleans(), st.sampled_from([-2, 0, 0, 1, 3]),
+    src = st.tuples(st.just("src"), rel, delta, st.sampled_from([False, False, False, True] if not pyc else [False] * 7 + [True]))
+    new = st.tuples(st.just("new"), st.booleans(), st.sampled_from([-2, 0, 0, 1, 3] if not pyc else [-2, -2, 0, 1]),
                     st.sampled_from(["same", "same", "same", "fork"]))
     by_name = {
         "src": src,
@@ -389,9 +454,13 @@ def history_strategy():
         "new": new,
     }
     # one_of() does not weight repeated branches; draw the op name from a weighted list first
-    op = st.sampled_from(["src"] * 4 + ["del"] + ["magic"] + ["new"] * 6).flatmap(lambda k: by_name[k])
+    weights = ["src"] * 4 + ["del"] + ["magic"] + ["new"] * 6
+    if pyc:
+        weights = ["src"] * 5 + ["del"] * 2 + ["magic"] + ["new"] * 7
+    op = st.sampled_from(weights).flatmap(lambda k: by_name[k])
     return st.fixed_dictionaries({
         "part": st.just("i"),
+        "pyc": st.just(bool(pyc)),
         "kind": st.sampled_from(KINDS),
         "depth": st.integers(0, 2),
         "dir_pre": st.booleans(),
@@ -400,9 +469,20 @@ def history_strategy():
 
 
 def check_history(case, ev=None):
-    """Raises Failure on the first oracle miss. Returns (nontrivial, labels)."""
+    """Raises Failure on the first oracle miss. Returns (nontrivial, labels).
+
+    case["pyc"]: the interpreter writes __pycache__ during every construction (must run in a throw-away child).
+    The same oracle applies.  For the evidence the harness models which (mtime second, size, content) the
+    __pycache__ entry was last written for and labels a rewrite 'pyc:hazard' when the new module file has the same
+    whole-second mtime and size as that entry but other content - the class in which stale bytecode would be valid.
+    """
     kind, depth, ops = case["kind"], case["depth"], case["ops"]
+    pyc = bool(case.get("pyc"))
     labels = []
+    pyc_entry = None  # (mtime second, size, sha1 of the module source it was compiled from) as modelled by the harness
+    hazards = 0
+    if pyc:
+        wait_for_room_in_second(0.6)
 
     def bad(i, detail, key):
         raise Failure(case, "history op #%d %r: %s" % (i, ops[i], detail), key)
@@ -452,6 +532,8 @@ def check_history(case, ev=None):
                     gen_from = "foreign"
                     labels.append("i:magic:foreign:" + rel)
                 write_file(mpath, data, m)
+                rm_pyc(mpath)  # whoever installs another generator's module is not mako; it leaves no bytecode behind
+                pyc_entry = None
                 mod = {"bytes": data, "mtime": m, "magic_ok": False, "gen_from": gen_from}
                 pending_interesting = True
             elif name == "new":
@@ -468,10 +550,20 @@ def check_history(case, ev=None):
                         why.append("magic")
                 due = bool(why)
                 if proc == "fork":
-                    res = construct_in_child(src, moddir, uri, stamp, writer)
+                    res = construct_in_child(src, moddir, uri, stamp, writer, bytecode=pyc)
                 else:
-                    res = construct(src, moddir, uri, stamp, writer)
+                    res = construct(src, moddir, uri, stamp, writer, bytecode=pyc)
                 after = read_state(mpath)
+                hazard = False
+                if pyc and after is not None:
+                    now_entry = (after[1] // 10 ** 9, len(after[0]), sha(after[0]))
+                    hazard = bool(due and pyc_entry and pyc_entry[:2] == now_entry[:2] and pyc_entry[2] != now_entry[2])
+                    pyc_entry = now_entry  # the load of this construction (re)writes the entry for what it found
+                    if hazard:
+                        hazards += 1
+                        labels.append("pyc:hazard:same-second-equal-size:" + "+".join(why))
+                    elif due:
+                        labels.append("pyc:rewrite-no-hazard")
                 tag = "due:" + "+".join(why) if due else "notdue"
                 labels.append("i:new:%s%s%s" % (tag, ":writer" if writer else "", ":fork" if proc == "fork" else ""))
                 if res["outcome"] != "ok":
@@ -499,8 +591,12 @@ def check_history(case, ev=None):
                         if not calls[-1]["has_stamp"] or calls[-1]["sha1"] != sha(after[0]):
                             bad(i, "module_writer did not receive the module source of this construction", "i:writer-args")
                     if not renders(res, kind, ver):
-                        bad(i, "after a rewrite (%s) expected render %r, %s" % ("+".join(why), expected_output(kind, ver)[:80],
-                                                                                describe_res(res)), "i:render-after-rewrite")
+                        sv = stale_version(res, kind, ver) if pyc else None
+                        bad(i, "after a rewrite (%s) expected render %r, %s%s" % (
+                            "+".join(why), expected_output(kind, ver)[:80], describe_res(res),
+                            "" if sv is None else " = the output of source version %d: stale bytecode from __pycache__ "
+                            "(new module has the whole-second mtime and size of the replaced one: %s)" % (sv, hazard)),
+                            "i:render-after-rewrite" + (":stale-bytecode" if sv is not None else ""))
                     m = src_mtime + adv
                     os.utime(mpath, (m, m))
                     mod = {"bytes": after[0], "mtime": m, "magic_ok": True, "gen_from": ver}
@@ -517,8 +613,10 @@ def check_history(case, ev=None):
                             "i:rewritten-when-not-due")
                     if mod["gen_from"] == ver:
                         if not renders(res, kind, ver):
+                            sv = stale_version(res, kind, ver) if pyc else None
                             bad(i, "module on disk was generated from the current source; expected render %r, %s"
-                                % (expected_output(kind, ver)[:80], describe_res(res)), "i:render-current-module")
+                                % (expected_output(kind, ver)[:80], describe_res(res)),
+                                "i:render-current-module" + (":stale-bytecode" if sv is not None else ""))
                         labels.append("i:notdue:current")
                     else:
                         labels.append("i:notdue:stale-allowed")
@@ -528,21 +626,23 @@ def check_history(case, ev=None):
             else:
                 raise HarnessError("unknown op %r" % (op,))
     nontrivial = nconstruct >= 2 and interesting_constructs >= 1
+    if pyc:
+        nontrivial = hazards >= 1
     return nontrivial, labels
 
 
 def shard_histories(task):
-    seed, n, want_sample = task
+    seed, n, want_sample, pyc = task
     warm()
     ev = core.Evidence()
 
     def check(case):
         nt, labels = check_history(case)
-        ev.case(key=case, nontrivial=nt, labels=sorted(set(labels)) + ["part:i"])
+        ev.case(key=case, nontrivial=nt, labels=sorted(set(labels)) + ["part:i-pyc" if pyc else "part:i"])
         if nt and want_sample:
-            ev.sample(case, "history")
+            ev.sample(case, "history-pyc" if pyc else "history")
 
-    fails, known = core.hyp_search(history_strategy(), check, ev, seed, n, classify=classify, known=core.load_known(PID))
+    fails, known = core.hyp_search(history_strategy(pyc), check, ev, seed, n, classify=classify, known=core.load_known(PID))
     return ev, fails + list(known.values())
 
 
@@ -563,7 +663,9 @@ class Scene:
         self.mpath = module_path(self.moddir, self.uri)
         self.old = None
         self.new = None
-        if state in ("older", "magic"):
+        self.pyc = state in PYC_STATES
+        self.w = None  # pyc states: the wall-clock second the arrangement was made in
+        if state in ("older", "magic") or self.pyc:
             write_file(self.src, source_text(kind, 0).encode("utf-8"), T0)
             res = construct_in_child(self.src, self.moddir, self.uri, S_OLD)
             st = read_state(self.mpath)
@@ -571,14 +673,33 @@ class Scene:
                 raise Failure({"part": "ii-setup", "kind": kind, "state": state},
                               "fault-free construction of the previous module failed: " + describe_res(res),
                               "ii:fault-free-run-wrong")
-            self.old = st[0] if state == "older" else swap_magic(st[0], 9)
+            self.old = swap_magic(st[0], 9) if state == "magic" else st[0]
         self.reset()
 
     def reset(self, moddir=None):
+        """pyc states (bytecode enabled): __pycache__ holds valid bytecode of the previous module, written when
+        that module file had the mtime of the CURRENT wall-clock second w (py_compile = what an earlier load in this
+        second leaves behind); afterwards the module file was either aged to w-5 (pyc-older; source mtime w-2, so a
+        rewrite is due and the rewritten file, mtime w, is then not older than the source) or deleted (pyc-orphan;
+        source mtime w-10).  The new module has the same size, so a rewrite inside second w produces a file for
+        which the old bytecode is still valid unless mako removes it."""
         moddir = moddir or self.moddir
         shutil.rmtree(moddir, ignore_errors=True)
-        write_file(self.src, source_text(self.kind, 1).encode("utf-8"), T0 + 10)
         mpath = module_path(moddir, self.uri)
+        if self.pyc:
+            wait_for_room_in_second(0.55)
+            w = self.w = int(time.time())
+            write_file(mpath, self.old, w)
+            py_compile.compile(mpath, cfile=pyc_path(mpath), doraise=True,
+                               invalidation_mode=py_compile.PycInvalidationMode.TIMESTAMP)
+            if self.state == "pyc-older":
+                os.utime(mpath, (w - 5, w - 5))
+                write_file(self.src, source_text(self.kind, 1).encode("utf-8"), w - 2)
+            else:
+                os.unlink(mpath)
+                write_file(self.src, source_text(self.kind, 1).encode("utf-8"), w - 10)
+            return
+        write_file(self.src, source_text(self.kind, 1).encode("utf-8"), T0 + 10)
         if self.state == "absent":
             os.makedirs(os.path.dirname(mpath))
         elif self.state == "older":
@@ -586,11 +707,18 @@ class Scene:
         elif self.state == "magic":
             write_file(mpath, self.old, T0 + 10)
 
+    def same_second(self):
+        """pyc states: was the module file now at the path written inside the second of the arrangement?"""
+        try:
+            return int(os.stat(self.mpath).st_mtime) == self.w
+        except OSError:
+            return None
+
     def classify_path(self, data, stamps):
         """-> 'none' | 'old' | 'new' | None (= corrupt)"""
         if data is None:
             return "none"
-        if self.old is not None and data == self.old:
+        if self.old is not None and self.state != "pyc-orphan" and data == self.old:
             return "old"
         for s in stamps:
             if data == restamp(self.new, s):
@@ -602,7 +730,7 @@ class Scene:
         for d, _, files in os.walk(self.moddir):
             for f in files:
                 p = os.path.join(d, f)
-                if p != self.mpath:
+                if p != self.mpath and os.path.basename(d) != "__pycache__":
                     out.append(p)
         return out
 
@@ -612,9 +740,11 @@ def write_window(log):
     first = last = None
     for i, (name, arg) in enumerate(log):
         opens_w = name == "open" and any(c in arg.rsplit(" ", 1)[-1] for c in "wax+")
-        if first is None and (name in ("tempfile.mkstemp", "os.open") or opens_w):
+        rm_bytecode = name in ("os.remove", "os.unlink") and "__pycache__" in arg
+        if first is None and (name in ("tempfile.mkstemp", "os.open") or opens_w or rm_bytecode):
             first = i
-        if first is not None and name in ("os.rename", "os.replace", "shutil.move", "file.close", "os.close", "os.link"):
+        if first is not None and (rm_bytecode or name in ("os.rename", "os.replace", "shutil.move", "file.close",
+                                                          "os.close", "os.link")):
             last = i
     if first is None or last is None:
         return None
@@ -631,25 +761,38 @@ def fault_plans(log, fracs):
                 yield k, mode, "half"
 
 
-def counting_run(scene, writer):
-    scene.reset()
+SAME_SECOND_TRIES = 5
 
+
+def counting_run(scene, writer, depth=None):
     def child(emit):
         fs = faultfs.FaultFS(root=scene.root)
         with fs:
-            res = construct(scene.src, scene.moddir, scene.uri, S_NEW, writer, fs=fs)
+            res = construct(scene.src, scene.moddir, scene.uri, S_NEW, writer, fs=fs, bytecode=scene.pyc)
         emit({"res": res, "log": fs.log})
 
-    code, out = run_child(child)
-    if code != 0 or not out:
-        raise HarnessError("counting child exited %r" % code)
+    for attempt in range(SAME_SECOND_TRIES):
+        scene.reset()
+        code, out = run_child(child)
+        if code != 0 or not out:
+            raise HarnessError("counting child exited %r" % code)
+        if not scene.pyc or scene.same_second():
+            break
     res, log = out[-1]["res"], out[-1]["log"]
     st = read_state(scene.mpath)
     case = {"part": "ii", "kind": scene.kind, "state": scene.state, "writer": writer, "k": None, "mode": None}
+    if depth is not None:
+        case["depth"] = depth
     if not renders(res, scene.kind, 1) or st is None or stamp_line(S_NEW) not in st[0]:
-        raise Failure(case, "fault-free construction in state %s did not produce/render the new module: %s; module path: %s"
-                      % (scene.state, describe_res(res), short(st[0]) if st else "no file"), "ii:fault-free-run-wrong")
+        stale = scene.pyc and stale_version(res, scene.kind, 1) is not None
+        raise Failure(case, "fault-free construction in state %s did not produce/render the new module: %s%s; module path: %s"
+                      % (scene.state, describe_res(res),
+                         " = the previous source: stale bytecode from __pycache__ was executed" if stale else "",
+                         short(st[0]) if st else "no file"),
+                      "ii:fault-free-run-wrong" + (":stale-bytecode" if stale else ""))
     scene.new = st[0]
+    if scene.pyc and len(scene.new) != len(scene.old):
+        raise HarnessError("pyc scene: previous and new module differ in size (%d, %d)" % (len(scene.old), len(scene.new)))
     return log
 
 
@@ -663,10 +806,10 @@ def run_fault_case(scene, writer, log, k, mode, frac, use_exec, case):
         def child(emit):
             fs = faultfs.FaultFS(k=k, mode=mode, frac=frac, root=scene.root, on_fire=lambda rec: emit({"fired": rec}))
             with fs:
-                res = construct(scene.src, scene.moddir, scene.uri, S_NEW, writer, fs=fs)
+                res = construct(scene.src, scene.moddir, scene.uri, S_NEW, writer, fs=fs, bytecode=scene.pyc)
             emit({"first": res, "n": fs.n})
             if retry:
-                emit({"retry": construct(scene.src, scene.moddir, scene.uri, S_RETRY, False)})
+                emit({"retry": construct(scene.src, scene.moddir, scene.uri, S_RETRY, False, bytecode=scene.pyc)})
         return child
 
     def where():
@@ -685,10 +828,19 @@ def run_fault_case(scene, writer, log, k, mode, frac, use_exec, case):
         retry_res = [o["retry"] for o in out if "retry" in o]
         return (first[0] if first else None), (retry_res[0] if retry_res else None)
 
+    def stale_note(res):
+        if scene.pyc and stale_version(res, scene.kind, 1) is not None:
+            return (" = the previous source: stale bytecode from __pycache__ was executed (module file written in the "
+                    "second of the old bytecode: %s)" % scene.same_second()), ":stale-bytecode"
+        return "", ""
+
     def check_raw_state():
         st = read_state(scene.mpath)
         data = st[0] if st else None
         what = scene.classify_path(data, (S_NEW,))
+        if scene.pyc:
+            # did the hazard materialise?  (complete new module at the path, written in the second of the old bytecode)
+            info["same_second"] = scene.same_second() if what == "new" else None
         if what is None:
             pre = ""
             if data is not None and scene.new.startswith(data):
@@ -708,11 +860,15 @@ def run_fault_case(scene, writer, log, k, mode, frac, use_exec, case):
             raise HarnessError("no result from the failing child")
         info["first"] = first["outcome"]
         if first["outcome"] == "ok" and not renders(first, scene.kind, 1):
-            raise Failure(case, "%s: Template() returned normally but %s; expected %r" % (
-                where(), describe_res(first), expected_output(scene.kind, 1)[:80]), "ii:faulted-construct-rendered-wrong")
+            note, suffix = stale_note(first)
+            raise Failure(case, "%s: Template() returned normally but %s%s; expected %r" % (
+                where(), describe_res(first), note, expected_output(scene.kind, 1)[:80]),
+                "ii:faulted-construct-rendered-wrong" + suffix)
         if not renders(retry, scene.kind, 1):
-            raise Failure(case, "%s: a later Template in the same process: %s; expected %r" % (
-                where(), describe_res(retry), expected_output(scene.kind, 1)[:80]), "ii:retry-same-process-failed")
+            note, suffix = stale_note(retry)
+            raise Failure(case, "%s: a later Template in the same process: %s%s; expected %r" % (
+                where(), describe_res(retry), note, expected_output(scene.kind, 1)[:80]),
+                "ii:retry-same-process-failed" + suffix)
         st = read_state(scene.mpath)
         if scene.classify_path(st[0] if st else None, (S_NEW, S_RETRY)) != "new":
             raise Failure(case, "%s: after the retry the module path holds %s, expected the complete new module"
@@ -723,12 +879,14 @@ def run_fault_case(scene, writer, log, k, mode, frac, use_exec, case):
     info["litter"] = len(scene.litter())
     # --- a fresh Template in a NEW process
     if use_exec:
-        fres = construct_in_new_interpreter(scene.src, scene.moddir, scene.uri, S_FRESH)
+        fres = construct_in_new_interpreter(scene.src, scene.moddir, scene.uri, S_FRESH, bytecode=scene.pyc)
     else:
-        fres = construct_in_child(scene.src, scene.moddir, scene.uri, S_FRESH)
+        fres = construct_in_child(scene.src, scene.moddir, scene.uri, S_FRESH, bytecode=scene.pyc)
     if not renders(fres, scene.kind, 1):
-        raise Failure(case, "%s: left the module path with %s; a fresh Template in a new process: %s; expected %r" % (
-            where(), info["path_after"], describe_res(fres), expected_output(scene.kind, 1)[:80]), "ii:fresh-process-failed")
+        note, suffix = stale_note(fres)
+        raise Failure(case, "%s: left the module path with %s; a fresh Template in a new process: %s%s; expected %r" % (
+            where(), info["path_after"], describe_res(fres), note, expected_output(scene.kind, 1)[:80]),
+            "ii:fresh-process-failed" + suffix)
     st = read_state(scene.mpath)
     if scene.classify_path(st[0] if st else None, (S_NEW, S_FRESH)) != "new":
         raise Failure(case, "%s: after a fresh Template the module path holds %s, expected the complete new module"
@@ -751,9 +909,9 @@ def shard_faults(task):
     with core.TempDir() as root:
         try:
             scene = Scene(root, kind, depth, state, "ii")
-            log = counting_run(scene, writer)
+            log = counting_run(scene, writer, depth)
         except Failure as f:
-            ev.case(key=("ii-setup", kind, depth, state, writer), nontrivial=False, labels=("ii:fault-free-run-wrong",))
+            ev.case(key=("ii-setup", kind, depth, state, writer), nontrivial=False, labels=("FAIL:" + f.key,))
             return ev, [f]
         win = write_window(log)
         seq = " ; ".join("%s(%s)" % (n, a) for n, a in log).replace(os.path.basename(scene.uri), "T.html")
@@ -768,7 +926,17 @@ def shard_faults(task):
             labels = ["part:ii", "ii:%s:%s:%s" % (name, mode, state), "ii:call:" + name, "ii:mode:" + mode,
                       "ii:state:" + state, "ii:writer:%d" % writer]
             try:
-                info = run_fault_case(scene, writer, log, k, mode, frac, use_exec, case)
+                for attempt in range(SAME_SECOND_TRIES):
+                    info = run_fault_case(scene, writer, log, k, mode, frac, use_exec, case)
+                    if info.get("same_second") is not False:
+                        break
+                if scene.pyc:
+                    if info.get("same_second"):
+                        labels.append("pyc:new-module-in-the-second-of-the-old-bytecode")
+                    elif info.get("same_second") is False:
+                        labels.append("pyc:missed-the-second")
+                        ev.rejected += 1
+                        nt = False
                 labels.append("ii:path-after:" + info["path_after"])
                 if info.get("litter"):
                     labels.append("ii:temp-litter-left")
@@ -863,50 +1031,25 @@ def shard_races(task):
 
 
 # =================================================================================================================
-# bytecode-enabled configuration (thorough, informational only)
-# =================================================================================================================
-def shard_pyc(task):
-    seed, n = task
-    warm()
-    ev = core.Evidence()
-
-    def child(emit):
-        sys.dont_write_bytecode = False
-        ev2 = core.Evidence()
-        misses = []
-
-        def check(case):
-            try:
-                check_history(case)
-            except Failure as f:
-                misses.append({"key": f.key, "detail": f.detail[:400]})
-                raise
-
-        fails, _ = core.hyp_search(history_strategy(), check, ev2, seed, n)
-        emit({"histories": ev2.evaluations + len(misses), "miss": (fails[0].to_json() if fails else None)})
-
-    code, out = run_child(child)
-    rep = out[-1] if out else {}
-    miss = rep.get("miss")
-    ev.notes["bytecode_enabled_config"] = (
-        "histories run with sys.dont_write_bytecode=False: %s; first oracle miss (NOT counted as a violation, outside "
-        "the declared environment): %s" % (rep.get("histories"), json.dumps(miss)[:900] if miss else "none"))
-    return ev, []
-
-
-# =================================================================================================================
-def fault_tasks(quick):
+def fault_tasks(quick, which=("plain", "pyc")):
     tasks = []
     if quick:
         combos = [("plain", 1), ("uni", 0)]
+        pyc_combos = [("plain", 1)]
         fracs = ("one", "half", "allbut1")
+        pyc_fracs = ("half",)
         policy = "window-die"
     else:
         combos = [("plain", 1), ("uni", 0), ("def", 2), ("ctl", 1), ("big", 0)]
-        fracs = ("one", "half", "allbut1")
+        pyc_combos = [("plain", 1), ("uni", 0), ("def", 2)]
+        fracs = pyc_fracs = ("one", "half", "allbut1")
         policy = "all"
-    for (kind, depth), state, writer in itertools.product(combos, STATES, (False, True)):
-        tasks.append((kind, depth, state, writer, fracs, policy))
+    if "pyc" in which:  # first: these shards spend time waiting for the clock
+        for (kind, depth), state, writer in itertools.product(pyc_combos, PYC_STATES, (False, True)):
+            tasks.append((kind, depth, state, writer, pyc_fracs, policy))
+    if "plain" in which:
+        for (kind, depth), state, writer in itertools.product(combos, STATES, (False, True)):
+            tasks.append((kind, depth, state, writer, fracs, policy))
     return tasks
 
 
@@ -932,17 +1075,21 @@ def race_tasks(quick):
 def run(ctx):
     ev = ctx.ev
     part = getattr(ctx, "part", None)
-    if part in (None, "ii"):
-        ctx.pmap(shard_faults, fault_tasks(ctx.quick))
+    if part in (None, "ii", "ii-pyc"):
+        ctx.pmap(shard_faults, fault_tasks(ctx.quick, ("pyc",) if part == "ii-pyc" else ("plain", "pyc")))
     if part in (None, "i"):
         n = ctx.pick(150, 3000)
-        ctx.pmap(shard_histories, [(ctx.shard_seed(i, "i"), n, i < 2) for i in range(16)])
+        ctx.pmap(shard_histories, [(ctx.shard_seed(i, "i"), n, i < 2, False) for i in range(16)])
+    if part in (None, "pyc", "i-pyc"):
+        n = ctx.pick(60, 1000)
+        ctx.pmap(shard_histories, [(ctx.shard_seed(i, "pyc"), n, i < 1, True) for i in range(16)])
     if part in (None, "iii"):
         ctx.pmap(shard_races, race_tasks(ctx.quick))
-    if part == "pyc" or (part is None and not ctx.quick):
-        ctx.pmap(shard_pyc, [(ctx.shard_seed(0, "pyc"), 300)])
     ev.notes["fault_cases"] = ev.labels.get("part:ii", 0)
     ev.notes["histories"] = ev.labels.get("part:i", 0)
+    ev.notes["histories_bytecode_enabled"] = ev.labels.get("part:i-pyc", 0)
+    ev.notes["histories_bytecode_hazard_rewrites"] = sum(
+        v for k, v in ev.labels.items() if k.startswith("pyc:hazard:"))
     ev.notes["races"] = ev.labels.get("part:iii", 0)
     ev.exhaustive = True
     ev.notes["exhaustive_domains"] = (
@@ -959,7 +1106,9 @@ def replay(case):
     part = case.get("part")
     try:
         if part == "i":
-            check_history(case)
+            # bytecode-enabled histories depend on two writes falling into one second: give a miss a few chances
+            for _ in range(SAME_SECOND_TRIES if case.get("pyc") else 1):
+                check_history(case)
         elif part in ("ii", "ii-setup"):
             with core.TempDir() as root:
                 scene = Scene(root, case["kind"], case.get("depth", 1), case["state"], "rp")
